@@ -227,6 +227,15 @@ def rule_sizes(chk: Check, model, rid: str):
     ok = ok and len(apps) == 1
     if ok:
         a = apps[0].args[0]
+        if a[0] == "index" and a[1][0] == "index":
+            # the requirement looked up in a table filled by an earlier pass over the same (consumer, input) pairs: what that pass stored
+            def _anon(t):
+                return tuple(_anon(x) for x in t) if isinstance(t, tuple) and not (t and t[0] == "elem") else (("elem", _anon(t[1]), 0) if isinstance(t, tuple) else t)
+            its = [_anon(rbs.loops[l].iter) for l in apps[0].loops]
+            firsts = [e for e in rbs.events if e.kind == "store_sub" and e.idx < apps[0].idx and len(e.loops) == 2 and [_anon(rbs.loops[l].iter) for l in e.loops] == its
+                      and e.key is not None and _anon(e.key) == _anon(a[2]) and e.term[0] == "num"]
+            if len(firsts) == 1:
+                a = firsts[0].term
         # max_s = s.max() + 1
         ok = a[0] == "num" and T.const_value(T.sub(a, T.ONE)) is None and any(x[0] == "call" and T.call_name(x).endswith(".max") for x in T.walk(a)) \
             and T.sub(a, T.ONE)[0] == "call"
